@@ -6,6 +6,9 @@ SRC = ["scen/async_send.cpp", "vos/vos.cpp"]
 HARNESSES = {
     "asend": dict(sources=SRC, flavour="asan", mode="C02", timeout=30),
     "default": dict(name="asend", sources=SRC, flavour="asan", mode="C02", timeout=30),
+    # the real-thread runs again under ThreadSanitizer (thorough tier): a data race on the send queue is a crash observation
+    "asend_tsan": dict(name="asend_tsan", sources=SRC, flavour="tsan", mode="C02", timeout=30,
+                       env={"TSAN_OPTIONS": "exitcode=66:halt_on_error=1:report_signal_unsafe=0"}),
 }
 RULE = ("sequential histories of Send(buffer of size s) / Step(0) under a send script (pass | short k | fail | zero) / "
         "peer-drain / peer-close / destroy on one SocketTcpAsync over loopback, s in {0,1,2,3,7,64,1000,5000} plus "
@@ -99,6 +102,11 @@ def gen(rng, tier):
         cases.append(("asend", "m%d" % k, ["mt %d %d %d %d %d" % (th, per, rng.choice([0, 1, 5, 40, 300]),
                                                                  rng.choice([0, 3, 10, 40]), rng.randrange(1000))]))
     if tier == "thorough":
+        for k in range(400):
+            th = rng.randrange(2, 5)
+            per = rng.randrange(2, 7)
+            cases.append(("asend_tsan", "t%d" % k, ["mt %d %d %d %d %d" % (th, per, rng.choice([0, 1, 5, 40, 300]),
+                                                                      rng.choice([0, 3, 10, 40]), rng.randrange(1000))]))
         alphabet = ["step pass", "step short 1", "step short 3", "step fail"]
         k = 0
         for L in range(1, 7):
